@@ -41,11 +41,11 @@ PROPS = {
                ("modint_m0i", 60, "quick"), ("gfsecp256k1_mul", 120, "quick", ARITH6, 300, PORTFOLIO),
                ("modint_monty", 120, "quick", (), 400), ("modint_mul_p1", 120, "quick", (), 400), ("modint_mul_p2", 120, "quick", (), 400),
                ("modint_mul_p3", 120, "quick", (), 400),
-               ("modint_sq_p1", 400, "quick", ARITH6, 600), ("modint_sq_p2", 400, "quick", ARITH6, 600), ("modint_half", 60, "quick")],
+               ("modint_sq_p1", 400, "quick", ARITH6, 600), ("modint_sq_p2", 400, "quick", ARITH6, 600), ("modint_half", 60, "quick"), ("gf448_lin", 100, "quick"), ("gfsecp256k1_lin", 100, "quick")],
         kani=_gf255_k(["k_add", "k_sub", "k_neg", "k_half"]),
         cases=_f(["add", "sub", "neg", "half", "mul", "mul2", "mul4", "mul8", "mul16", "mul32", "mulk", "mul_small", "smallmul", "mul_b127",
                   "square", "xsquare", "bits"]),
-        level_text="GF255<MQ> (64-bit limbs; instantiated as GF25519, GF255e, GF255s): add, sub, neg, half, mul2..mul32, the full 4x4-limb multiplication and the dedicated squaring with their two-step pseudo-Mersenne reduction, repeated squaring (loop invariant, any n) and every +,-,* operator impl are proved by Verus against fe(result) == op(fe(args)) mod 2^255-MQ for every limb pattern and every admissible MQ; add/sub/neg/half additionally by Kani on the full 2^512 input domain. ModInt256<M0..M3> (all scalar fields and the P-256 field; any odd modulus with a non-zero top limb): set_add (both code paths), set_sub, set_neg, set_mul2/3/4/8/16/32 proved by Verus on the internal (Montgomery) representation with the invariant value < m. make_m0i (the -1/m0 mod 2^64 Newton iteration behind every Montgomery reduction) proved for every odd m0. GFsecp256k1::set_mul (product and the two-fold 2^32+977 reduction) proved. ModInt256 Montgomery reduction (set_montyred) Montgomery multiplication (set_mul, all three code paths) and squaring (set_square, both code paths) - and halving (set_half: 2*r == a or a + m, r < m, given HMP1 == (m+1)/2) - multiplication and squaring as one unit per code path, splitting the contract by the path condition on the modulus; the other branches are proved unreachable in each: result < m and result*2^256 == a*b (mod m), for every modulus, given the M0I property that make_m0i is proved to establish. The other field types and backends: executable-postcondition stand-in only.",
+        level_text="GF255<MQ> (64-bit limbs; instantiated as GF25519, GF255e, GF255s): add, sub, neg, half, mul2..mul32, the full 4x4-limb multiplication and the dedicated squaring with their two-step pseudo-Mersenne reduction, repeated squaring (loop invariant, any n) and every +,-,* operator impl are proved by Verus against fe(result) == op(fe(args)) mod 2^255-MQ for every limb pattern and every admissible MQ; add/sub/neg/half additionally by Kani on the full 2^512 input domain. ModInt256<M0..M3> (all scalar fields and the P-256 field; any odd modulus with a non-zero top limb): set_add (both code paths), set_sub, set_neg, set_mul2/3/4/8/16/32 proved by Verus on the internal (Montgomery) representation with the invariant value < m. make_m0i (the -1/m0 mod 2^64 Newton iteration behind every Montgomery reduction) proved for every odd m0. GFsecp256k1::set_mul (product and the two-fold 2^32+977 reduction), set_add, set_sub, set_neg proved. GF448: set_add, set_sub, set_neg proved (fe(result) == fe(a) op fe(b) mod 2^448-2^224-1 for every 448-bit limb pattern; the dropped final carries / borrows are shown to be zero). ModInt256 Montgomery reduction (set_montyred) Montgomery multiplication (set_mul, all three code paths) and squaring (set_square, both code paths) - and halving (set_half: 2*r == a or a + m, r < m, given HMP1 == (m+1)/2) - multiplication and squaring as one unit per code path, splitting the contract by the path condition on the modulus; the other branches are proved unreachable in each: result < m and result*2^256 == a*b (mod m), for every modulus, given the M0I property that make_m0i is proved to establish. The other field types and backends: executable-postcondition stand-in only.",
         assumptions=["ModInt256::M0I is an opaque constant in the Montgomery units; its defining property (M0*M0I == -1 mod 2^64) is a precondition of set_montyred/set_mul and is what make_m0i(M0), which the source assigns to M0I, is proved to return"],
         level_note="Trusted: Verus+Z3, Kani/CBMC, the x86 add-with-carry intrinsics (assumed to behave as the portable arms that are proved), extraction transformations listed in evidence. Not reached by any contract: ModInt256, GF448, GFsecp256k1, gfgen, binary fields, 32-bit/51-bit/clmul backends.",
         not_reached=["ModInt256 set_montylin / set_div (stand-in only); make_hmp1 is a declared contract (its nested helper fn cannot be given a contract by the weaver)", "GF448", "GFsecp256k1", "define_gfgen! (ed448 scalar)", "GFb127/GFb254",
